@@ -220,3 +220,7 @@ func init() {
 func init() {
 	claim("C10", "I1", "I7", "I4", "I5", "I8", "I3", "B3", "B4")
 }
+
+func init() {
+	claim("C08", "A1", "A2", "A3", "Z1", "N1")
+}
